@@ -353,6 +353,141 @@ theorem wan_originated_udp_replies_pass (k : Key) (h4 : k.l4 = IPPROTO_UDP) (hsl
     obtain ⟨iha, ihn⟩ := ih (e.apply w).1 (fun e' he' => henv e' (List.mem_cons_of_mem _ he')) hs1 hlrest
     exact ⟨⟨hs2, iha⟩, ihn⟩
 
+/-! ## DNS tuples stay stateless; what happens when the record maps are full -/
+
+/-- **Port-53 UDP tuples never hold a conn-state decision**, along any run (this discharges the
+hypothesis `hnc` of `lan_dns_datagram` / `wan_dns_datagram` for every world reachable from one
+without such an entry, e.g. the empty one): no hook ever writes a decision under such a tuple. -/
+theorem dns_tuples_never_hold_a_decision (k : Key) (hk : shortLivedUdp k = true) :
+    ∀ (evs : List Event) (w : World), (∀ e ∈ evs, EnvOk e) → NoDecision w k → NoDecision (run w evs) k := by
+  intro evs
+  induction evs with
+  | nil => intro w _ hn; exact hn
+  | cons e es ih =>
+    intro w henv hn
+    have he : EnvOk e := henv e (List.mem_cons_self ..)
+    have hn1 : NoDecision (e.pre w) k := by
+      intro cs hl; unfold Event.pre at hl; rw [he w] at hl; exact hn cs hl
+    exact ih _ (fun e' he' => henv e' (List.mem_cons_of_mem _ he'))
+      (dns_noDecision_step e.rt (e.pre w) e.hook e.skb e.l2 k hk hn1)
+
+/-- **`redirect_track` full ⇒ the hand-over is refused and the frame dropped** (both tails): a frame
+whose decision earns a hand-over to dae is `TC_ACT_SHOT` when the redirect entry cannot be stored. -/
+theorem handover_without_redirect_room_drops (w : World) (s : Skb) (l2 : Bool) (p : Pkt) (d : Dec) (dscp : Nat)
+    (e isTcp mand : Bool) (mac pn : Bytes) (pid : Nat)
+    (hl4 : p.l4proto = if isTcp then IPPROTO_TCP else IPPROTO_UDP)
+    (hfull : alookup w.rtrack (redirectKey s p.tuples) = none ∧ w.rtrackCap ≤ w.rtrack.length) :
+    (lanFate w s p d = .toDae → (lanVerdict w s l2 p d.ob d.mark d.must dscp e).2.act = TC_ACT_SHOT) ∧
+    (wanFate w s p d = .toDae →
+      (wanVerdict w s l2 p isTcp d.ob d.mark d.must mac pn pid mand).2.act = TC_ACT_SHOT) := by
+  have hprep : ∀ w' : World, w'.rtrack = w.rtrack → w'.rtrackCap = w.rtrackCap → ∀ fw,
+      (prepRedirect w' s l2 p fw).failed = true := by
+    intro w' h1 h2 fw
+    unfold prepRedirect aupdate
+    simp only [h1, h2, hfull.1]
+    have : w.rtrack.length ≥ w.rtrackCap := hfull.2
+    simp [this]
+  constructor
+  · intro hf
+    unfold lanFate groupUp at hf
+    unfold lanVerdict
+    by_cases h0 : d.ob = OUTBOUND_DIRECT
+    · simp [h0] at hf
+    · simp only [h0, if_false] at hf ⊢
+      by_cases h1 : d.ob = OUTBOUND_BLOCK
+      · simp [h1] at hf
+      · simp only [h1, if_false] at hf ⊢
+        by_cases ha : wanAlive w s.raw.proto d.ob p.l4proto p.tuples.five.dport = true
+        · simp only [ha, Bool.not_true, Bool.false_eq_true, if_false]
+          unfold redirectLan
+          simp only [hprep w rfl rfl false, if_true]
+        · simp [ha] at hf
+  · intro hf
+    unfold wanFate groupUp at hf
+    rw [hl4] at hf
+    unfold wanVerdict
+    by_cases h0 : d.ob = OUTBOUND_DIRECT ∧ d.mark = 0
+    · simp [h0] at hf
+    · have h0' : (decide (d.ob = OUTBOUND_DIRECT) && d.mark == 0) = false := by
+        cases hx : (decide (d.ob = OUTBOUND_DIRECT) && d.mark == 0)
+        · rfl
+        · exfalso; apply h0
+          simp only [Bool.and_eq_true, decide_eq_true_eq, beq_iff_eq] at hx
+          exact hx
+      simp only [h0', Bool.false_eq_true, if_false, h0] at hf ⊢
+      by_cases h1 : d.ob = OUTBOUND_BLOCK
+      · simp [h1] at hf
+      · simp only [h1, if_false] at hf ⊢
+        by_cases ha : wanAlive w s.raw.proto d.ob (if isTcp then IPPROTO_TCP else IPPROTO_UDP) p.tuples.five.dport = true
+        · simp only [ha, Bool.not_true, Bool.false_eq_true, if_false]
+          split
+          · rfl
+          · have := hprep (publishHandoff w p.tuples.five ⟨d.mark, d.must, mac, d.ob, pn, pid, p.tuples.dscp⟩).1
+              (publishHandoff_rtrack _ _ _).1 (publishHandoff_rtrack _ _ _).2 true
+            simp only [this, if_true]
+        · simp [ha] at hf
+
+/-- **`routing_handoff_map` full.**  On the WAN hook a datagram whose ONLY record would be the hand-off
+entry (port 53, or no conn-state entry) is dropped rather than handed over without a record.  On the
+LAN hook the return value of the hand-off update is ignored (`redirect_lan_packet_to_control_plane`):
+the frame IS handed over and the map is left as it was — the one situation in which the control
+plane does not find the kernel's decision and routes the flow itself (for TCP and non-53 UDP the
+conn-state entry still carries it; for a LAN DNS datagram nothing does). -/
+theorem handoff_full_behaviour (w : World) (s : Skb) (l2 : Bool) (p : Pkt) (d : Dec) (dscp : Nat) (e : Bool)
+    (mac pn : Bytes) (pid : Nat) (hu : p.l4proto = IPPROTO_UDP) (hrt : rtrackRoom w s p)
+    (hfull : alookup w.handoff p.tuples.five = none ∧ w.handoffCap ≤ w.handoff.length) :
+    (wanFate w s p d = .toDae →
+      (wanVerdict w s l2 p false d.ob d.mark d.must mac pn pid true).2 = outShot s) ∧
+    (lanFate w s p d = .toDae →
+      (lanVerdict w s l2 p d.ob d.mark d.must dscp e).2.act = TC_ACT_REDIRECT ∧
+      (lanVerdict w s l2 p d.ob d.mark d.must dscp e).1.handoff = w.handoff) := by
+  have hpub : ∀ w' : World, w'.handoff = w.handoff → w'.handoffCap = w.handoffCap → ∀ r,
+      publishHandoff w' p.tuples.five r = (w', true) := by
+    intro w' h1 h2 r
+    unfold publishHandoff aupdate
+    simp only [h1, h2, hfull.1]
+    have : w.handoff.length ≥ w.handoffCap := hfull.2
+    simp [this]
+  constructor
+  · intro hf
+    unfold wanFate groupUp at hf
+    rw [hu] at hf
+    unfold wanVerdict
+    by_cases h0 : d.ob = OUTBOUND_DIRECT ∧ d.mark = 0
+    · simp [h0] at hf
+    · have h0' : (decide (d.ob = OUTBOUND_DIRECT) && d.mark == 0) = false := by
+        cases hx : (decide (d.ob = OUTBOUND_DIRECT) && d.mark == 0)
+        · rfl
+        · exfalso; apply h0
+          simp only [Bool.and_eq_true, decide_eq_true_eq, beq_iff_eq] at hx
+          exact hx
+      simp only [h0', Bool.false_eq_true, if_false, h0] at hf ⊢
+      by_cases h1 : d.ob = OUTBOUND_BLOCK
+      · simp [h1] at hf
+      · simp only [h1, if_false] at hf ⊢
+        by_cases ha : wanAlive w s.raw.proto d.ob IPPROTO_UDP p.tuples.five.dport = true
+        · simp only [ha, Bool.not_true, Bool.false_eq_true, if_false, hpub w rfl rfl, Bool.and_self, if_true]
+        · simp [ha] at hf
+  · intro hf
+    unfold lanFate groupUp at hf
+    unfold lanVerdict
+    by_cases h0 : d.ob = OUTBOUND_DIRECT
+    · simp [h0] at hf
+    · simp only [h0, if_false] at hf ⊢
+      by_cases h1 : d.ob = OUTBOUND_BLOCK
+      · simp [h1] at hf
+      · simp only [h1, if_false] at hf ⊢
+        by_cases ha : wanAlive w s.raw.proto d.ob p.l4proto p.tuples.five.dport = true
+        · simp only [ha, Bool.not_true, Bool.false_eq_true, if_false]
+          unfold redirectLan
+          simp only [prepRedirect_ok w s l2 p false hrt, Bool.false_eq_true, if_false]
+          have hh := prepRedirect_handoff w s l2 p false
+          have hcap : (prepRedirect w s l2 p false).w.handoffCap = w.handoffCap := by
+            unfold prepRedirect; simp only; split <;> rfl
+          rw [hpub _ hh hcap]
+          exact ⟨by first | rfl | trivial, hh⟩
+        · simp [ha] at hf
+
 /-! ## Frames the hooks do not route -/
 
 /-- **Fragments, non-TCP/UDP protocols, ICMPv6 and unparsable frames are never routed**: when the
@@ -621,5 +756,38 @@ example : exTracked.WF ∧ exK.WF := by
     exact ⟨by unfold Key.WF; decide, by unfold ConnState.WF; decide⟩
   · intro p hp; simp [exTracked, exWorld] at hp
   · unfold Key.WF; decide
+
+/-- a DNS query of the same LAN client: UDP 192.168.1.10:40000 → 1.2.3.4:53 -/
+def exDnsBytes : Bytes :=
+  [2,0,0,0,0,2, 2,0,0,0,0,1, 8,0,
+   0x45,0,0,0x1c,0,0,0,0,0x40,17,0,0,192,168,1,10,1,2,3,4, 0x9c,0x40,0,53,0,8,0,0]
+def exDns : Skb := ⟨⟨exDnsBytes, 42, true, 0x0800⟩, 3, 3, 0, 0, none⟩
+def exDnsK : Key := ⟨281473913979146, 281470698652420, 40000, 53, 17⟩
+def exDnsPkt : Pkt := ⟨2048, [2,0,0,0,0,1], [2,0,0,0,0,2], ⟨exDnsK, 0⟩, false, false, false, false, 17, 17⟩
+
+-- `lan_dns_datagram` / `dns_tuples_never_hold_a_decision` / `handoff_full_behaviour`: the hypotheses hold in the
+-- EMPTY world (every health bit 0): the datagram is stateless, and the fate of "group 2" is a hand-over although
+-- the group is dead (port 53 is always let through)
+example : parsePacket exDns.raw true = .pkt exDnsPkt ∧ exDnsPkt.l4proto = IPPROTO_UDP ∧
+    shortLivedUdp exDnsPkt.tuples.five = true ∧ lanLocalSocket {} exDns exDnsPkt = false ∧
+    rtrackRoom {} exDns exDnsPkt ∧ handoffRoom {} exDnsPkt.tuples.five ∧
+    NoDecision {} exDnsPkt.tuples.five ∧ (0 < ({} : World).now) ∧
+    lanFate {} exDns exDnsPkt (unpackRoute 2) = .toDae ∧ groupUp {} exDns 6 443 2 = false := by
+  refine ⟨by decide, rfl, by decide, by decide, Or.inr (by decide), Or.inr (by decide), ?_, by decide, by decide,
+    by decide⟩
+  intro cs hl; cases hl
+
+-- `lan_routing_error_fails_closed`: a rule program without any hit (`route()` = -EPERM) and a packet the hook routes
+example : LanConsultsRoute exWorld exSyn exSynPkt ∧ (fun _ => (-1 : Int)) (lanRouteIn exSyn exSynPkt) < 0 ∧
+    LanConsultsRoute {} exDns exDnsPkt :=
+  ⟨Or.inl ⟨rfl, rfl, rfl⟩, by decide, Or.inr ⟨rfl, by decide, Or.inl (by decide)⟩⟩
+
+-- `reverse_syn_restarts_tracking_as_wan_originated`: `exSyn` read as a frame arriving on WAN ingress is the reverse
+-- pure SYN of the flow 1.2.3.4:443 → 192.168.1.10:40000, which may well be tracked
+example : parseTransport exSyn.raw true = .ret 0 exSynCtx ∧ exSynCtx.l4proto = IPPROTO_TCP ∧
+    exSynCtx.tcpSyn = true ∧ exSynCtx.tcpAck = false ∧
+    Tracked ({ conn := [((getTuples exSynCtx).five.rev, ⟨false, 0, 1000000000, 0, 2, 0, 0, 1, zeros 6, zeros 16, 0⟩)] } : World)
+      (getTuples exSynCtx).five.rev ⟨2, 0, 0⟩ :=
+  ⟨by decide, rfl, rfl, rfl, ⟨⟨false, 0, 1000000000, 0, 2, 0, 0, 1, zeros 6, zeros 16, 0⟩, by decide, by decide, rfl, rfl⟩⟩
 
 end DaeVerif.C03.Props
